@@ -25,6 +25,7 @@ class Ed:
     cite_type: str
     plain: bool  # uses the default $full_cite template only
     examples: Tuple[str, ...] = ()
+    reporter_name: str = ""  # distinguishes the sources that share one top-level key (e.g. two 'Dall.' reporters)
 
 
 @dataclass
@@ -47,7 +48,7 @@ def inventory() -> Inventory:
             for ename, edata in src["editions"].items():
                 templates = tuple(edata.get("regexes") or ["$full_cite"])
                 ed = Ed("reporters", key, ename, _year(edata.get("start")), _year(edata.get("end")), templates,
-                        src.get("cite_type", ""), templates == ("$full_cite",), tuple(src.get("examples", []) or ()))
+                        src.get("cite_type", ""), templates == ("$full_cite",), tuple(src.get("examples", []) or ()), src.get("name", ""))
                 inv.editions.append(ed)
                 inv.by_string[ename].append((ed, "exact"))
                 for v, target in variations.items():
@@ -58,7 +59,7 @@ def inventory() -> Inventory:
             for src in cluster:
                 templates = tuple(src.get("regexes") or ["$full_cite"])
                 ed = Ed(source_name, key, key, _year(src.get("start")), _year(src.get("end")), templates,
-                        src.get("cite_type", ""), templates == ("$full_cite",), tuple(src.get("examples", []) or ()))
+                        src.get("cite_type", ""), templates == ("$full_cite",), tuple(src.get("examples", []) or ()), src.get("name", ""))
                 inv.editions.append(ed)
                 inv.by_string[key].append((ed, "exact"))
                 for v in src.get("variations", []) or []:
@@ -111,7 +112,7 @@ def multi_candidate_strings() -> List[str]:
     out = []
     for s in plain_strings():
         us = users(s)
-        if len({(e.reporter_key, e.name, e.source) for e, _ in us}) >= 2:
+        if len({(e.reporter_key, e.reporter_name, e.name, e.source) for e, _ in us}) >= 2:
             out.append(s)
     return out
 
@@ -121,11 +122,14 @@ def single_candidate_variations() -> List[Tuple[str, str]]:
     """(variation string, canonical edition name) for plain case reporters with exactly one candidate."""
     inv = inventory()
     out = []
-    for s in case_plain_strings():
-        us = inv.by_string[s]
+    for s, us in inv.by_string.items():
         if any(k == "exact" for _, k in us):
             continue
-        eds = {(e.reporter_key, e.name) for e, _ in us}
+        # the plain volume-reporter-page shape must be among the edition's templates (it need not be the only one:
+        # several templates matching the same text is exactly the case where identical tokens get merged)
+        if not all("$full_cite" in e.templates for e, _ in us):
+            continue
+        eds = {(e.reporter_key, e.reporter_name, e.name) for e, _ in us}
         if len(eds) == 1 and all(e.source == "reporters" for e, _ in us):
             e = us[0][0]
             out.append((s, e.name))
